@@ -19,6 +19,7 @@ func (e StdEng) Transpose(a Tensor, expStrides []int) error {
 
 func (e StdEng) denseTranspose(a DenseTensor, expStrides []int) {
 	if a.rtype() == String.Type {
+		e.transposeMask(a) // the mask moves with the elements for strings too
 		e.denseTransposeString(a, expStrides)
 		return
 	}
